@@ -49,6 +49,10 @@ def check(ctx):
     r01_3(ctx, m)
     r01_46_stable(ctx, m)
     r01_46_unstable(ctx, m)
+    from . import c03
+
+    c03.r03_7(ctx)  # the segment tables the search runs on are SO-sorted
+    c03.r03_4(ctx, None)
     ctx.not_decided += [
         "utils.reverse_cigar's index arithmetic (that the reversed CIGAR is the op-wise reverse)",
         "view.run's construction of the node->interval map and contig lengths from the rGFA tags (checked only for call-site agreement in C03/C04)",
@@ -157,6 +161,25 @@ def r01_1_search(ctx, m):
         if bad:
             break
     ctx.check(bad is None, "R01.1", f.where(), "binary search over the SO-sorted segments: descends left only when qe <= s(mid), right only when qs >= e(mid), otherwise returns the current inclusive window", key_of(f, f"search-table:{bad['ordering'] if bad else ''}"), rows=rows, **({"witness": bad} if bad else {}))
+    # base case: the inclusive window [start, end] is non-empty exactly when start <= end
+    guards = [st for st in f.node.body if isinstance(st, ast.If) and lo in names_in(st.test) and hi in names_in(st.test)]
+    badg = None
+    if guards:
+        def atom2(e):
+            t = norm(e)
+            return "lo" if t == lo else ("hi" if t == hi else None)
+        for env, scale in ordtab.weak_orderings(["lo", "hi"], []):
+            try:
+                v = ordtab.Evaluator(env, atom2, scale).truth(guards[0].test)
+            except ordtab.Unsupported as ex:
+                raise AnalysisError("R01.1", f.where(guards[0]), f"window guard outside the fragment: {ex}")
+            searched = any(x is mids[0] for b in guards[0].body for x in ast.walk(b)) == v or (any(x is mids[0] for b in guards[0].orelse for x in ast.walk(b)) == (not v))
+            want = env["lo"] <= env["hi"]
+            in_body = any(x is mids[0] for b in guards[0].body for x in ast.walk(b))
+            examined = v if in_body else (not v)
+            if examined != want:
+                badg = {"start_vs_end": "start < end" if env["lo"] < env["hi"] else ("start = end" if env["lo"] == env["hi"] else "start > end"), "window_examined": examined}
+    ctx.check(bool(guards) and badg is None, "R01.1", f.where(), "the search examines the midpoint exactly when the inclusive window [start, end] is non-empty (start <= end): a one-element window is still searched", key_of(f, f"search-base:{norm(guards[0].test) if guards else None}"), **({"witness": badg} if badg else {}))
     mid_ok = norm(mids[0].value) in (f"{lo} + ({hi} - {lo}) // 2", f"({lo} + {hi}) // 2", f"({hi} + {lo}) // 2", f"int(({lo} + {hi}) / 2)")
     ctx.check(mid_ok, "R01.1", f.where(mids[0]), "the midpoint lies inside the inclusive window [start, end]", key_of(f, f"mid:{norm(mids[0].value)}"))
 
